@@ -71,6 +71,7 @@ type ScriptConn struct {
 	Pause            time.Duration // virtual time the peer lets pass before each segment
 	readDL, writeDL  time.Time
 	DeadlineAnomaly  string
+	TimedOutReads    int // Reads that returned a timeout because the armed deadline passed during a pause
 }
 
 func NewScriptConn(segs [][]byte, term string) *ScriptConn {
@@ -102,8 +103,19 @@ func (c *ScriptConn) Read(b []byte) (int, error) {
 		return 0, c.term
 	}
 	if c.Pause > 0 && c.off == 0 {
-		// the peer takes its time before it sends the next segment (virtual clock)
+		// the peer takes its time before it sends the next segment (virtual clock). Like a real connection, a
+		// Read that is still waiting when its deadline passes returns a timeout error.
+		dl := c.readDL
 		c.mu.Unlock()
+		if !dl.IsZero() && dl.Before(time.Now().Add(c.Pause)) && !c.RequireDeadlines {
+			if d := time.Until(dl); d > 0 {
+				time.Sleep(d)
+			}
+			c.mu.Lock()
+			c.TimedOutReads++
+			c.mu.Unlock()
+			return 0, timeoutErr{}
+		}
 		time.Sleep(c.Pause)
 		c.mu.Lock()
 		if c.RequireDeadlines && c.DeadlineAnomaly == "" && (c.readDL.IsZero() || c.readDL.Before(time.Now())) {
